@@ -47,7 +47,8 @@ def run_scenario(chk, sc, cfgseed, dtype, axes, flavour="sched", workers=None):
     nfiles = sc["nfiles"]
     ap = lat.ap("A", ["u", "v", "w"], files_of=lambda lv, b: (b - 1) % nfiles[lv] + 1,
                 shuffle=lambda lv, f, v: rng.sample(v, len(v)))
-    flds = lattice.Fields(lat, cfgseed, payload="wild" if cfgseed % 2 else "tame")
+    # integer grids: values that the integer type can hold (the conversion of NaN / inf / 1e300 to an integer is undefined)
+    flds = lattice.Fields(lat, cfgseed, payload="wild" if cfgseed % 2 and not dtype.startswith("int") else "tame")
     d = chk.tmp()
     os.makedirs(d)
     src, out = os.path.join(d, "plt00010"), os.path.join(d, "grid")
@@ -104,7 +105,7 @@ def run_scenario(chk, sc, cfgseed, dtype, axes, flavour="sched", workers=None):
 
 def run(chk, replay):
     chk.rule = ("behaviours of Whip.tla emitted by TLC (mesh x files per level x limit x arrival order), replayed through whip's "
-                "main() with float64/float32 and the lattice axes assigned to every permutation of (x, y, z); signature = (levels, "
+                "main() with float64/float32/float16/int16/int32/int64 (integer and half grids on moderate finite values) and the lattice axes assigned to every permutation of (x, y, z); signature = (levels, "
                 "limit, per-level (boxes, files), arrival class, dtype, axes); trivial = one level, one file")
     chk.assumptions = ["third axis extruded with 3 level-0 cells and cut into two slabs"]
     if replay:
@@ -127,7 +128,8 @@ def run(chk, replay):
     chk.exhaustive = len(chosen) == len(scenarios)
     perms = [(0, 1, 2), (1, 2, 0), (2, 0, 1), (0, 2, 1), (1, 0, 2), (2, 1, 0)]
     for i, sc in enumerate(chosen):
-        dtype = "float32" if i % 2 else "float64"
+        # "float32 or integer types can be used to save space" (whip --help)
+        dtype = ["float64", "float32", "float64", "int32", "float32", "int16", "float64", "float16", "float32", "int64"][i % 10]
         axes = perms[i % 6]
         cfgseed = chk.rng.randrange(1 << 30)
         v = run_scenario(chk, sc, cfgseed, dtype, axes)
